@@ -500,7 +500,39 @@ def rule_r12_callsites(ctx, prog, rule="R12"):
                 if nme.startswith("sort") or nme.startswith("dedup"):
                     continue
                 # any other mutation must happen before the sort
-                after = gb is not root_b or any(cbb in root_b.reachable_from(s2) for s2 in root_b.succ(sb[1]))
+                if gb is root_b:
+                    after = any(cbb in root_b.reachable_from(s2) for s2 in root_b.succ(sb[1]))
+                else:
+                    # a mutation inside a closure runs when the closure is called: if the closure value is built at a site that
+                    # cannot be reached once the sort has run (it is consumed by `for_each` & co. on the way to the sort), it is
+                    # part of the construction phase
+                    site_body, site_bb = gb, None
+                    while site_body is not root_b:
+                        cs = prog.closure_site(site_body.key)
+                        if cs is None:
+                            break
+                        site_body, site_bb = cs[0], cs[1]
+                    after = site_body is not root_b or site_bb is None
+                    if not after:
+                        # every call that receives that closure value must itself lie before the sort
+                        top_key = gb.key
+                        k2 = gb
+                        while True:
+                            cs2 = prog.closure_site(k2.key)
+                            if cs2 is None or cs2[0] is root_b:
+                                top_key = k2.key
+                                break
+                            k2 = cs2[0]
+                        users = []
+                        for ubb, ut in root_b.calls():
+                            for ua in root_b.call_arg_exprs(ubb):
+                                ua = strip(ua)
+                                if isinstance(ua, tuple) and ua[0] == "agg" and ua[1] == "closure" and ua[2] == top_key:
+                                    users.append(ubb)
+                        post_sort = set()
+                        for s2 in root_b.succ(sb[1]):
+                            post_sort |= root_b.reachable_from(s2) | {s2}
+                        after = not users or any(u in post_sort for u in users) or site_bb in post_sort
                 if after:
                     ok = False
                     detail += "; `%s` may run after the sort" % nme
